@@ -366,13 +366,17 @@ def run_case(ctx, case):
     try:
         if how == "via_none":
             d.coords = None
-            leftovers = {"world_ids": len(d.world_component_ids), "coordinate_links": len(d.coordinate_links),
-                         "world_labels_listed": sum(1 for c in d.components if c.label.startswith("World"))}
+            # the statement covers datasets *with* a transformation: without one, no world attribute may be offered;
+            # coordinate links left behind by glue are only tallied (an observation, not judged here)
+            offered = {"world_ids": len(d.world_component_ids),
+                       "world_labels_listed": sum(1 for c in d.components if c.label.startswith("World"))}
             ctx.evaluation()
             ctx.count("coords_removed_state_compared")
-            if any(leftovers.values()):
-                ctx.violation({"kind": "world_attributes_or_links_left_after_coords_removed",
-                               "what": sorted(k_ for k_, v in leftovers.items() if v)}, {"shape": list(shape), "left": leftovers})
+            if d.coordinate_links:
+                ctx.count("observation:coordinate_links_left_after_coords_removed")
+            if any(offered.values()):
+                ctx.violation({"kind": "world_attributes_offered_after_coords_removed",
+                               "what": sorted(k_ for k_, v in offered.items() if v)}, {"shape": list(shape), "left": offered})
         d.coords = spec2["coords"]
     except Exception as e:   # noqa
         ctx.violation({"kind": "coords_replacement_failed", "how": "exception:" + exc_name(e), "replacement": how},
